@@ -250,18 +250,24 @@ Section WalkFacts.
       destruct (ikids s); [reflexivity|discriminate].
   Qed.
   Theorem full_text_spec fuel D n : In n (ids t) -> 2 * length (ids t) + 1 < fuel ->
-    (forall i, In i (ids t) -> is_text i = a_is_text t i) -> (forall i, In i (ids t) -> content i = a_text t i) ->
-    is_tag n = true ->
-    w_full_text first_raw next_raw is_tag is_text content fc fuel D n = Ok (a_text_concat t (filter D (a_descendants t n))).
+    (forall i, In i (ids t) -> is_text i = a_is_text t i) ->
+    (forall i, In i (ids t) -> is_text i = true -> content i = a_text t i) ->
+    (is_tag n = true -> is_text n = false) ->
+    w_full_text first_raw next_raw is_tag is_text content fc fuel D n =
+    Ok (if a_is_text t n then a_text t n else a_text_concat t (filter D (a_descendants t n))).
   Proof.
-    intros Hn Hf Htx Hct Htag. unfold w_full_text. rewrite Htag, (descendants_spec fuel D ftrue n Hn Hf). cbn [rbind].
-    rewrite filter_fand_ftrue. f_equal. unfold a_text_concat. apply flat_map_ext_in'. intros i Hi.
-    apply filter_In in Hi. destruct Hi as [Hi _].
-    assert (Hin : In i (ids t)).
-    { unfold a_descendants in Hi. destruct (a_sub_of_id t Hnd n Hn) as [s [Hs [E Hsub]]]. rewrite Hsub in Hi.
-      apply in_flat_map in Hi. destruct Hi as [k [Hk Hi]]. apply (ids_sub_incl t k (kid_in_subtrees t s k Hs Hk)). exact Hi. }
-    rewrite (Htx i Hin), (Hct i Hin). reflexivity.
+    intros Hn Hf Htx Hct Hexcl. unfold w_full_text. destruct (is_tag n) eqn:Htag.
+    - rewrite <- (Htx n Hn), (Hexcl eq_refl). rewrite (descendants_spec fuel D ftrue n Hn Hf). cbn [rbind].
+      rewrite filter_fand_ftrue. f_equal. unfold a_text_concat. apply flat_map_ext_in'. intros i Hi.
+      apply filter_In in Hi. destruct Hi as [Hi _].
+      assert (Hin : In i (ids t)).
+      { unfold a_descendants in Hi. destruct (a_sub_of_id t Hnd n Hn) as [s [Hs [E Hsub]]]. rewrite Hsub in Hi.
+        apply in_flat_map in Hi. destruct Hi as [k [Hk Hi]]. apply (ids_sub_incl t k (kid_in_subtrees t s k Hs Hk)). exact Hi. }
+      rewrite <- (Htx i Hin). destruct (is_text i) eqn:Ei; [rewrite (Hct i Hin Ei)|]; reflexivity.
+    - rewrite <- (Htx n Hn). destruct (is_text n) eqn:Ei; [rewrite (Hct n Hn Ei); reflexivity|].
+      rewrite (descendants_preorder t Hnd n Hn), (Hleaf n Hn Htag). reflexivity.
   Qed.
+
   (* ---------------------------------------------------------------- ancestors, depth *)
   Lemma ancestors_bound n : length (a_ancestors t n) < fc.
   Proof. destruct (ancestors_length t n) as [H|H]; [lia|rewrite H; cbn; lia]. Qed.
@@ -336,5 +342,127 @@ Section WalkFacts.
   Proof.
     intros Hn Hf. unfold w_iterate_preceding. rewrite (prec_loop_spec fuel n Hn) by (pose proof (preceding_length n); lia).
     reflexivity.
+  Qed.
+  (* ---------------------------------------------------------------- following axis *)
+  Lemma climb_spec : forall fuel n, In n (ids t) -> length (a_ancestors t n) < fuel ->
+    climb next_raw parent fuel n = Ok (hd_error (flat_map (a_fsibs t) (a_ancestors t n))).
+  Proof.
+    induction fuel as [|f IH]; intros n Hn Hf; [lia|]. cbn [climb]. rewrite (Hparent n Hn). cbn [rbind].
+    rewrite (ancestors_chain t Hnd n Hn) in Hf |- *. destruct (a_parent t n) as [p|] eqn:Hp; [|reflexivity].
+    pose proof (parent_in n p Hp) as Hpin. rewrite (Hnext p Hpin). cbn [rbind flat_map]. unfold a_next_sibling.
+    destruct (a_fsibs t p) as [|x r] eqn:E; cbn [hd_error app]; [|reflexivity].
+    apply IH; [exact Hpin|cbn in Hf; lia].
+  Qed.
+  Lemma next_after_subtree n : In n (ids t) ->
+    (s <- next_raw n ;; match s with Some x => Ok (Some x) | None => climb next_raw parent fc n end)
+    = Ok (hd_error (pend t n)).
+  Proof.
+    intros Hn. rewrite (Hnext n Hn). cbn [rbind]. unfold a_next_sibling, pend. cbn [flat_map].
+    destruct (a_fsibs t n) as [|x r]; cbn [hd_error app]; [|reflexivity].
+    apply climb_spec; [exact Hn|apply ancestors_bound].
+  Qed.
+  Lemma fol_loop_spec D : forall fuel n, In n (ids t) -> length (Wf t D n) < fuel ->
+    fol_loop first_raw next_raw parent is_tag fc fuel D n = Ok (Wf t D n).
+  Proof.
+    induction fuel as [|f IH]; intros n Hn Hf; [lia|]. cbn [fol_loop]. rewrite (first_child_spec D n Hn). cbn [rbind].
+    rewrite (Wf_step t Hnd D n Hn) in Hf |- *.
+    destruct (hd_error (filter D (a_children t n))) as [c|] eqn:Ec.
+    - cbn [rbind].
+      assert (Hc : In c (ids t)).
+      { destruct (filter D (a_children t n)) as [|c' r] eqn:E; [discriminate|]. injection Ec as ->.
+        apply (children_in t n). apply (proj1 (filter_In D c (a_children t n))). rewrite E. left. reflexivity. }
+      rewrite (IH c Hc) by (cbn in Hf; lia). reflexivity.
+    - rewrite (next_after_subtree n Hn). cbn [rbind]. destruct (pend t n) as [|m r] eqn:Em; [reflexivity|]. cbn [hd_error] in *.
+      destruct (pend_step t Hnd n Hn m r Em) as [Hm _].
+      rewrite (IH m Hm) by (cbn in Hf; lia). reflexivity.
+  Qed.
+  Theorem following_spec fuel D F n : up_closed_b D t = true -> In n (ids t) -> length (ids t) <= fuel ->
+    w_iterate_following first_raw next_raw parent is_tag fc fuel D F n = Ok (filter (fand D F) (a_following t n)).
+  Proof.
+    intros Hg Hn Hf. unfold w_iterate_following.
+    rewrite (fol_loop_spec D fuel n Hn) by (pose proof (Wf_length t Hnd D n Hn); lia). cbn [rbind].
+    rewrite !filter_fand, (Wf_filter t Hnd D n (up_closed_b_spec D t Hg) Hn). reflexivity.
+  Qed.
+  (* ---------------------------------------------------------------- last_descendant *)
+  Lemma ld_loop_spec D : hid_closed D t -> forall fuel node, In node (ids t) -> length (a_descendants t node) < fuel ->
+    ld_loop first_raw next_raw is_tag fc fuel D node = Ok (ldv t D node).
+  Proof.
+    intros Hh. induction fuel as [|f IH]; intros node Hn Hf; [lia|]. cbn [ld_loop]. rewrite (last_child_spec D node Hn).
+    cbn [rbind]. rewrite (ldv_step t Hnd D Hh node Hn). destruct (last_error (filter D (a_children t node))) as [c|] eqn:E; [|reflexivity].
+    assert (Hc : In c (a_children t node)) by (apply last_error_in in E; apply filter_In in E; tauto).
+    apply IH; [exact (children_in t node c Hc)|]. pose proof (child_descendants_shorter t Hnd node c Hn Hc). lia.
+  Qed.
+  Theorem last_descendant_spec D n : up_closed_b D t = true -> In n (ids t) ->
+    w_last_descendant first_raw next_raw is_tag fc D n = Ok (last_error (filter D (a_descendants t n))).
+  Proof.
+    intros Hg Hn. pose proof (up_closed_b_spec D t Hg) as Hh. unfold w_last_descendant. rewrite (last_child_spec D n Hn). cbn [rbind].
+    rewrite (last_visible_descendant t Hnd D Hh n Hn). destruct (last_error (filter D (a_children t n))) as [c|] eqn:E; [|reflexivity].
+    assert (Hc : In c (a_children t n)) by (apply last_error_in in E; apply filter_In in E; tauto).
+    rewrite (ld_loop_spec D Hh fc c (children_in t n c Hc)); [reflexivity|].
+    pose proof (descendants_length c (children_in t n c Hc)). lia.
+  Qed.
+  (* ---------------------------------------------------------------- traversers (no ambient filter) *)
+  Lemma concat_res_pre (rec : nid -> res (list nid)) (g : nid -> list nid) : forall l,
+    (forall c, In c l -> rec c = Ok (g c)) -> concat_res rec false l = Ok (flat_map g l).
+  Proof.
+    induction l as [|c r IH]; intros H; [reflexivity|]. cbn [concat_res flat_map]. rewrite (H c (or_introl eq_refl)). cbn [rbind].
+    rewrite IH by (intros x Hx; apply H; right; exact Hx). reflexivity.
+  Qed.
+  Lemma btt_spec : forall fuel n, In n (ids t) -> length (a_descendants t n) < fuel ->
+    btt first_raw next_raw is_tag fc fuel ftrue ftrue n = Ok (a_df_btt t n).
+  Proof.
+    induction fuel as [|f IH]; intros n Hn Hf; [lia|]. cbn [btt]. rewrite (children_spec ftrue ftrue n Hn). cbn [rbind].
+    rewrite (filter_all _ _ (fun x => eq_refl)). rewrite (concat_res_pre _ (a_df_btt t)).
+    - cbn [rbind]. rewrite (post_unfold t Hnd n Hn). reflexivity.
+    - intros c Hc. apply IH; [exact (children_in t n c Hc)|]. pose proof (child_descendants_shorter t Hnd n c Hn Hc). lia.
+  Qed.
+  Theorem traverse_df_btt_spec fuel n : In n (ids t) -> length (ids t) <= fuel ->
+    w_traverse_df_btt first_raw next_raw is_tag fc fuel ftrue ftrue n = Ok (a_df_btt t n).
+  Proof. intros Hn Hf. apply btt_spec; [exact Hn|]. pose proof (descendants_length n Hn). lia. Qed.
+
+  Lemma rbind_ret {A} (x : res A) : (r <- x ;; Ok r) = x.
+  Proof. destruct x; reflexivity. Qed.
+  Lemma ext_spec x : In x (ids t) ->
+    (if is_tag x then w_iterate_children ftrue ftrue x else Ok []) = Ok (a_children t x).
+  Proof.
+    intros Hx. destruct (is_tag x) eqn:E; [|rewrite (Hleaf x Hx E); reflexivity].
+    rewrite (children_spec ftrue ftrue x Hx), (filter_all _ _ (fun y => eq_refl)). reflexivity.
+  Qed.
+  Lemma bf_loop_nil fuel F : 0 < fuel -> bf_loop first_raw next_raw is_tag fc fuel ftrue F [] = Ok [].
+  Proof. destruct fuel; [lia|reflexivity]. Qed.
+  Lemma bf_shift F : forall L fuel M, (forall x, In x L -> In x (ids t)) ->
+    bf_loop first_raw next_raw is_tag fc (length L + fuel) ftrue F (L ++ M) =
+    (r <- bf_loop first_raw next_raw is_tag fc fuel ftrue F (M ++ CH t L) ;; Ok (filter F L ++ r)).
+  Proof.
+    induction L as [|x L' IH]; intros fuel M HL.
+    - cbn [length plus app CH flat_map filter]. rewrite app_nil_r. symmetry. apply rbind_ret.
+    - cbn [length plus app bf_loop]. rewrite (ext_spec x (HL x (or_introl eq_refl))). cbn [rbind].
+      rewrite <- app_assoc. rewrite (IH fuel (M ++ a_children t x)) by (intros y Hy; apply HL; right; exact Hy).
+      unfold CH. cbn [flat_map]. fold (CH t L'). rewrite <- app_assoc.
+      destruct (bf_loop first_raw next_raw is_tag fc fuel ftrue F (M ++ a_children t x ++ CH t L')); cbn [rbind filter]; try reflexivity.
+      destruct (F x); reflexivity.
+  Qed.
+  Lemma CH_in L : (forall x, In x L -> In x (ids t)) -> forall y, In y (CH t L) -> In y (ids t).
+  Proof. intros _ y Hy. unfold CH in Hy. apply in_flat_map in Hy. destruct Hy as [x [_ Hy]]. exact (children_in t x y Hy). Qed.
+  Lemma bf_levels F : forall d L fuel, (forall x, In x L -> In x (ids t)) -> lv t d L = lv t (S d) L ->
+    length (lv t d L) < fuel -> bf_loop first_raw next_raw is_tag fc fuel ftrue F L = Ok (filter F (lv t d L)).
+  Proof.
+    induction d as [|d IH]; intros L fuel HL Hsat Hf.
+    - cbn [lv] in Hsat. rewrite app_nil_r in Hsat. subst L. apply bf_loop_nil. cbn in Hf. lia.
+    - change (lv t (S d) L) with (L ++ lv t d (CH t L)) in *. change (lv t (S (S d)) L) with (L ++ lv t (S d) (CH t L)) in Hsat.
+      apply app_inv_head in Hsat. rewrite app_length in Hf.
+      assert (E : bf_loop first_raw next_raw is_tag fc fuel ftrue F L
+                  = bf_loop first_raw next_raw is_tag fc (length L + (fuel - length L)) ftrue F (L ++ [])).
+      { rewrite app_nil_r. f_equal. lia. }
+      rewrite E, (bf_shift F L (fuel - length L) [] HL). cbn [app].
+      rewrite (IH (CH t L) (fuel - length L) (CH_in L HL) Hsat) by lia. cbn [rbind]. rewrite filter_app. reflexivity.
+  Qed.
+  Theorem traverse_bf_spec fuel F n : In n (ids t) -> length (ids t) < fuel ->
+    w_traverse_bf first_raw next_raw is_tag fc fuel ftrue F n = Ok (filter F (a_bf_ttb t n)).
+  Proof.
+    intros Hn Hf. unfold w_traverse_bf. rewrite (children_spec ftrue ftrue n Hn). cbn [rbind].
+    rewrite (filter_all _ _ (fun x => eq_refl)). destruct (bf_unfold t Hnd n Hn) as [d [E [Hsat _]]].
+    pose proof (bf_length_bound t Hnd n Hn) as Hb. rewrite E in Hb |- *. cbn [length] in Hb.
+    rewrite (bf_levels F d (a_children t n) fuel (children_in t n) Hsat) by lia. reflexivity.
   Qed.
 End WalkFacts.
